@@ -39,7 +39,28 @@ def gen_generator_case(rng, tier):
     return {"prog": "forms", "ops": ops}
 
 
+def with_refused_activation(rng, sc):
+    """Another probe naming one of the functions is refused (it asks for a variable the function
+    does not have) while the total probes are live: the refusal must not disturb them."""
+    fns = sorted({lv["fn"] for op in sc["ops"] if op["op"] == "mk" for sel in op["sels"] for lv in sel["levels"]})
+    enters = [i for i, op in enumerate(sc["ops"]) if op["op"] == "enter"]
+    if not fns or not enters:
+        return sc
+    bad = {"levels": [{"fn": rng.choice(fns), "caps": [], "sibs": []}], "focus": {"var": "nosuchvar", "as": "nosuchvar"}}
+    at = enters[-1] + 1
+    sc["ops"][at:at] = [{"op": "mk", "id": "bad", "kind": "probe", "sels": [bad], "nojudge": True, "expect_refusal": True},
+                        {"op": "enter", "id": "bad"}]
+    return sc
+
+
 def gen(rng, tier, quarantine=()):
+    sc = _gen(rng, tier, quarantine)
+    if "no-refused-activation" not in quarantine and sc["prog"] == "calltree" and rng.random() < 0.2:
+        sc = with_refused_activation(rng, sc)
+    return sc
+
+
+def _gen(rng, tier, quarantine=()):
     r = rng.random()
     if "no-generator-outermost" not in quarantine and r < 0.2:
         return gen_generator_case(rng, tier)
